@@ -8,7 +8,8 @@ From Refinery Require Import Lib.Base Lib.Strs_samp Model.Registry Proofs.Regist
 From Refinery Require Gen.GenC12 Gen.GenC13.
 
 Theorem C13_source_shape :
-  GenC13.peer_count_only_on_success = true /\ GenC13.goal_is_max_quot_1 = true /\
+  GenC13.peer_count_only_on_success = true /\ GenC13.peers_read_under_lock = true /\
+  GenC13.goal_is_max_quot_1 = true /\
   GenC13.peer_count_starts_at_1 = true /\ GenC13.callback_registered = true /\
   length GenC13.goal_recorded_when_use_cluster_size = 3%nat /\
   GenC13.create_updates_peer_counts = true /\ GenC13.total_initial_goal = true /\
@@ -39,6 +40,13 @@ Theorem C13_peers_current_after_creation : forall s sc name d n,
   f_src s = Some n -> 0 < n -> f_peers (fst (create s sc name d)) = n.
 Proof. exact peers_current_after_creation. Qed.
 Print Assumptions C13_peers_current_after_creation.
+
+(* a membership change delivered while a sampler is being created (the creation reads the peer list
+   under the factory lock, the notification waits for it) is not lost *)
+Theorem C13_peers_current_after_racing_creation : forall s sc name d n,
+  0 < n -> f_peers (fst (fstep s (FCreateRace sc name d (Some n)))) = n.
+Proof. exact peers_current_after_racing_creation. Qed.
+Print Assumptions C13_peers_current_after_racing_creation.
 
 (* a failed or empty peer list never changes the count *)
 Theorem C13_peers_unchanged_on_failure : forall s,
